@@ -307,7 +307,7 @@ class SeqGen:
                         self.pairs.append((r0[1][1], r1[1][1]))
                 if len(self.ops) < length: self.push(self.eq_pair(n0))
             elif op[0] != "EqOp" and len(op) > 1 and isinstance(op[1], tuple) and len(self.ops) < length \
-                    and self.rng.random() < 0.35:
+                    and self.rng.random() < (0.7 if op[0] == "SetExt" else 0.35):
                 e = self.eq_pair(op[1][0])       # after touching an object that has a copy: compare them
                 if e is not None: self.push(e)
         return self.ops, self.trace
@@ -357,6 +357,8 @@ def exhaustive(tier, maxlen=3):
                 # EqOp / Copy of handle 2 only make sense once a copy exists; a missing handle would
                 # be an IndexError on both sides, which is outside the modelled universe: skip
                 ok = True; nobj = 2
+                if tier == "quick" and pre is PREFIXES[1] and not any(op[0] == "Copy" for op in seq):
+                    continue        # quick: the FactorGraph/FGG set-up only where it differs (copies)
                 for op in seq:
                     if op[0] == "EqOp" and max(op[1]) >= nobj: ok = False; break
                     if op[0] == "Copy": nobj += 1      # at least
@@ -431,7 +433,7 @@ def run(tier, seed):
     n_exh = 0
     for ops in exhaustive(tier):
         add(ops, "exhaustive"); n_exh += 1
-    n_rand = 1000 if tier == "quick" else 40000
+    n_rand = 800 if tier == "quick" else 40000
     hist = {}
     fails = steps = 0
     for i in range(n_rand):
@@ -467,7 +469,7 @@ def run(tier, seed):
         if o.startswith("random"): lens[len(ops) // 10 * 10] = lens.get(len(ops) // 10 * 10, 0) + 1
     samp = [c for c in cases if c[2].startswith("random")]
     cov = dict(evaluations=len(cases), distinct_nontrivial=distinct,
-               rule="operation sequences over the small universe (3 node labels, 4 edge-label names x terminal/nonterminal x arity 0-2, 4 explicit node ids, 3 explicit edge ids, implicit ids, 2 domains, 2 factor tags): corpus of minimised failing sequences first; every sequence of <= 3 calls from a reduced universe of %d calls after 2 set-up calls (2 set-ups); random sequences of 1-40 calls, ~30%% of calls designed to raise, 60%% of the sequences steering clear of the known well-formedness findings.  After EVERY call the full observable state of every live object and the result / exception kind are compared with the model and judged by wf_b, the atomicity oracle and the frame / copy oracle.  non-trivial = >= 3 calls, some graph ends up with a node, and some call raised or copied; distinct by the call sequence" % len(reduced_universe(tier)),
+               rule="operation sequences over the small universe (3 node labels, 4 edge-label names x terminal/nonterminal x arity 0-2, 4 explicit node ids, 3 explicit edge ids, implicit ids, 2 domains, 2 factor tags): corpus of minimised failing sequences first; every sequence of <= 3 calls from a reduced universe of %d calls after 2 set-up calls (2 set-ups: Graph+HRG, FactorGraph+FGG; in the quick tier the second set-up only for sequences containing a copy); random sequences of 1-40 calls, ~30%% of calls designed to raise, 60%% of the sequences steering clear of the known well-formedness findings.  After EVERY call the full observable state of every live object and the result / exception kind are compared with the model and judged by wf_b, the atomicity oracle and the frame / copy oracle.  non-trivial = >= 3 calls, some graph ends up with a node, and some call raised or copied; distinct by the call sequence" % len(reduced_universe(tier)),
                exhaustive_part="%d sequences" % n_exh, corpus_cases=n_corpus, random_sequences=n_rand,
                random_steps=steps, random_steps_raising=fails, op_histogram=hist, random_length_histogram=lens,
                verdict_code_histogram=code_hist, kernel_reevaluated=nk, harness_crashes=crashes,
@@ -476,7 +478,11 @@ def run(tier, seed):
                open_items=OPEN_ITEMS)
     return cov, violations
 
-OPEN_ITEMS = []
+OPEN_ITEMS = [
+    "C16_copy_observe for grammars: 'the copy of an HRG/FGG shows what its original shows' (copy_match strict) is proved for Graph/FactorGraph copies only (C16_copy_observe_graph); for grammar copies ==, freshness and independence are proved, the observation-level statement is covered by the model correspondence and the copy oracle",
+    "rule_reg_ok (atomicity guard of add_rule/new_rule) is the exact semantic condition 'the raising call has not changed the tables', not a syntactic characterisation",
+    "C16_eq_refl/_sym/_trans are stated for families satisfying inv (the key-discipline-only versions graph_eqb_*/hrg_eqb_* are lemmas in Proofs/GraphAPI_eq.v)",
+]
 
 def replay(path):
     r = json.load(open(path))
